@@ -50,13 +50,13 @@ Proof.
   - apply IH.
 Qed.
 
-Lemma expand_posting_ok t ac p l : expand_posting t ac p = MOk l -> Forall txn_ok l.
+Lemma expand_posting_ok rebook t ac p l : expand_posting_gen rebook t ac p = MOk l -> Forall txn_ok l.
 Proof.
-  unfold expand_posting. intros H.
-  assert (H1 : Forall txn_ok (if is_AL (p_acc p)
+  unfold expand_posting_gen. intros H.
+  assert (H1 : Forall txn_ok (if rebook (p_acc p)
     then [mkTxn (t_date t) (t_desc t) (pair_build (ac_account ac) (p_acc p) (p_com p) (p_qty p) dec_nil) (t_targets t)]
     else [])).
-  { destruct (is_AL (p_acc p)); repeat constructor. unfold txn_ok; cbn. apply pair_build_paired. }
+  { destruct (rebook (p_acc p)); repeat constructor. unfold txn_ok; cbn. apply pair_build_paired. }
   destruct (is_IE (p_acc p)).
   - destruct (new_partition _ _ _); try discriminate.
     destruct (quo_rem _ _ _) as [[amount rem]|]; try discriminate.
@@ -64,24 +64,27 @@ Proof.
   - inversion H; subst. exact H1.
 Qed.
 
-Lemma expand_postings_ok t ac ps l : expand_postings t ac ps = MOk l -> Forall txn_ok l.
+Lemma expand_postings_ok rebook t ac ps l : expand_postings_gen rebook t ac ps = MOk l -> Forall txn_ok l.
 Proof.
   revert l. induction ps as [|p ps IH]; intros l H; cbn in H.
   - inversion H. constructor.
-  - destruct (expand_posting t ac p) as [l1| |] eqn:E1; try discriminate. cbn in H.
-    destruct (expand_postings t ac ps) as [l2| |] eqn:E2; try discriminate. cbn in H. inversion H.
+  - destruct (expand_posting_gen rebook t ac p) as [l1| |] eqn:E1; try discriminate. cbn in H.
+    destruct (expand_postings_gen rebook t ac ps) as [l2| |] eqn:E2; try discriminate. cbn in H. inversion H.
     apply Forall_app. split; [eapply expand_posting_ok; eauto|apply IH; reflexivity].
 Qed.
 
-Lemma txn_create_ok s l : txn_create s = MOk l -> Forall txn_ok l.
+Lemma txn_create_gen_ok rebook s l : txn_create_gen rebook s = MOk l -> Forall txn_ok l.
 Proof.
-  unfold txn_create. intros H.
+  unfold txn_create_gen. intros H.
   destruct (postings_create (st_bookings s)) as [ps| |] eqn:E; try discriminate. cbn in H.
   destruct (st_accrual s) as [ac|].
-  - unfold expand in H. destruct (check_account (ac_account ac)); try discriminate. cbn in H.
+  - unfold expand_gen in H. destruct (check_account (ac_account ac)); try discriminate. cbn in H.
     eapply expand_postings_ok; eauto.
   - inversion H. repeat constructor. unfold txn_ok; cbn. eapply postings_create_paired; eauto.
 Qed.
+
+Lemma txn_create_ok s l : txn_create s = MOk l -> Forall txn_ok l.
+Proof. apply txn_create_gen_ok. Qed.
 
 Definition directive_ok (d : directive) : Prop :=
   match d with DTxn t => txn_ok t | _ => True end.
